@@ -421,7 +421,13 @@ def _check_writes(case):
     out = []
     d = tempfile.mkdtemp(prefix="vk10.")
     try:
-        path = os.path.join(d, "sub", "out.cnn") if case["subdir"] else os.path.join(d, "out.cnn")
+        # file and directory names as users choose them: spaces, glob metacharacters, several dots (a pure function of the
+        # case; seeded change C10m looked for earlier copies with an unescaped glob pattern)
+        from vk import gen
+
+        base = ["out.cnn", "out.cnn", "sample[T1].cns", "a b.cnr", "x*.cnn", "q?.v2.cnn", "r{1}.cns"][gen.pick(case, "fname", 7)]
+        sub = ["sub", "run[2]", "my dir"][gen.pick(case, "dname", 3)]
+        path = os.path.join(d, sub, base) if case["subdir"] else os.path.join(d, base)
         contents = []
         for i in range(case["k"]):
             arr = GA(pd.DataFrame([("chr1", 10 * i + j, 10 * i + j + 5, "w%d_%d" % (i, j)) for j in range(3 + i)],
@@ -431,7 +437,7 @@ def _check_writes(case):
             with open(path) as fh:
                 contents.append(fh.read())
         names = sorted(os.listdir(os.path.dirname(path)))
-        want = sorted(["out.cnn"] + ["out.cnn.%d" % j for j in range(1, case["k"])])
+        want = sorted([base] + [base + ".%d" % j for j in range(1, case["k"])])
         if names != want:
             out.append({"clause": "writes:files", "detail": f"after {case['k']} writes the directory holds {names}, expected {want}"})
             return out
